@@ -81,6 +81,7 @@ func (e Event) String() string {
 
 // Path is one explored path with its outcome.
 type Path struct {
+	Heap    map[string]SV // memory at the end of the path
 	Trace   []Event
 	Ret     []SV
 	Outcome string // return, panic, cutoff
@@ -111,6 +112,8 @@ type Scenario struct {
 	Inline func(f *ssa.Function) bool
 	// Assume fixes undetermined conditions by their description (true/false); unlisted ones fork.
 	Assume map[string]bool
+	// InlineGo evaluates the body of `go f()` in place when f is inlinable.
+	InlineGo bool
 	// MaxVisit bounds how often one block may be entered on a path (loop unrolling bound; default 3).
 	MaxVisit int
 	// NoFork lists condition-description prefixes that must never fork (evaluation error instead).
@@ -143,7 +146,14 @@ type symFrame struct {
 	visits map[*ssa.BasicBlock]int
 	prev   *ssa.BasicBlock
 	depth  int
-	defers []Event
+	defers []deferredCall
+}
+
+type deferredCall struct {
+	ev     Event
+	callee SV
+	args   []SV
+	static *ssa.Function
 }
 
 func (f *symFrame) clone() *symFrame {
@@ -155,7 +165,7 @@ func (f *symFrame) clone() *symFrame {
 	for k, v := range f.visits {
 		n.visits[k] = v
 	}
-	n.defers = append([]Event(nil), f.defers...)
+	n.defers = append([]deferredCall(nil), f.defers...)
 	return n
 }
 
@@ -201,7 +211,7 @@ func evalPaths(fn *ssa.Function, sc *Scenario) ([]Path, error) {
 		for _, k := range o.st.order {
 			as = append(as, fmt.Sprintf("%s=%v", k, o.st.assume[k]))
 		}
-		res = append(res, Path{Trace: o.st.trace, Ret: o.ret, Outcome: o.kind, Assume: as})
+		res = append(res, Path{Trace: o.st.trace, Ret: o.ret, Outcome: o.kind, Assume: as, Heap: o.st.heap})
 	}
 	return res, ev.err
 }
@@ -304,6 +314,12 @@ func constSV(c *ssa.Const) SV {
 		if u, ok := constant.Uint64Val(c.Value); ok {
 			return SV{K: "int", Desc: fmt.Sprint(u)}
 		}
+	case constant.Float:
+		if iv := constant.ToInt(c.Value); iv.Kind() == constant.Int {
+			if i, ok := constant.Int64Val(iv); ok {
+				return symInt(i)
+			}
+		}
 	case constant.String:
 		s := constant.StringVal(c.Value)
 		l := symInt(int64(len(s)))
@@ -317,6 +333,9 @@ func isCellAddr(d string) bool { return strings.HasPrefix(d, "cell:") || strings
 func (ev *symEval) load(fr *symFrame, st *symState, addr SV, t types.Type) SV {
 	if v, ok := st.heap[addr.Desc]; ok {
 		return v
+	}
+	if strings.HasPrefix(addr.Desc, "make#") {
+		return zeroFor(t)
 	}
 	if isCellAddr(addr.Desc) {
 		z := zeroFor(t)
@@ -431,10 +450,44 @@ func (ev *symEval) runBlock(fr *symFrame, b *ssa.BasicBlock, idx int, st *symSta
 			st.trace = append(st.trace, Event{Kind: "panic", What: ev.val(fr, x.X).Desc, In: fname(fr.fn)})
 			return []outcome{{st: st, kind: "panic"}}
 		case *ssa.RunDefers:
+			states := []*symState{st}
 			for i := len(fr.defers) - 1; i >= 0; i-- {
-				e := fr.defers[i]
-				e.Kind = "rundefer"
-				st.trace = append(st.trace, e)
+				d := fr.defers[i]
+				var target *ssa.Function
+				var bind []SV
+				if d.static != nil {
+					target = d.static
+				} else if d.callee.Fn != nil {
+					target, bind = d.callee.Fn, d.callee.Bind
+				}
+				var next []*symState
+				for _, s := range states {
+					e := d.ev
+					e.Kind = "rundefer"
+					s.trace = append(s.trace, e)
+					if target != nil && ev.sc.Inline != nil && ev.sc.Inline(target) && len(target.Blocks) > 0 && fr.depth < 6 {
+						for _, o := range ev.call(target, d.args, bind, s, fr.depth+1) {
+							next = append(next, o.st)
+						}
+					} else {
+						next = append(next, s)
+					}
+				}
+				states = next
+			}
+			fr.defers = nil
+			if len(states) == 1 {
+				st = states[0]
+			} else {
+				var res []outcome
+				for i, s := range states {
+					f2 := fr
+					if i < len(states)-1 {
+						f2 = fr.clone()
+					}
+					res = append(res, ev.runBlock(f2, b, k+1, s)...)
+				}
+				return res
 			}
 		case *ssa.Store:
 			addr := ev.val(fr, x.Addr)
@@ -459,10 +512,44 @@ func (ev *symEval) runBlock(fr *symFrame, b *ssa.BasicBlock, idx int, st *symSta
 			}
 		case *ssa.Go:
 			st.trace = append(st.trace, ev.callEvent(fr, "go", x))
+			if ev.sc.InlineGo && !x.Call.IsInvoke() {
+				// sequentialise: evaluate the goroutine's body in place (only the set and order of its own effects matter to the rules using this)
+				cv := ev.val(fr, x.Call.Value)
+				target, bind := x.Call.StaticCallee(), []SV(nil)
+				if cv.Fn != nil {
+					target, bind = cv.Fn, cv.Bind
+				}
+				if target != nil && ev.sc.Inline != nil && ev.sc.Inline(target) && len(target.Blocks) > 0 && fr.depth < 6 {
+					var args []SV
+					for _, a := range x.Call.Args {
+						args = append(args, ev.val(fr, a))
+					}
+					outs := ev.call(target, args, bind, st, fr.depth+1)
+					var res []outcome
+					for i, o := range outs {
+						f2 := fr
+						if i < len(outs)-1 {
+							f2 = fr.clone()
+						}
+						res = append(res, ev.runBlock(f2, b, k+1, o.st)...)
+					}
+					return res
+				}
+			}
 		case *ssa.Defer:
 			e := ev.callEvent(fr, "defer", x)
 			st.trace = append(st.trace, e)
-			fr.defers = append(fr.defers, e)
+			dc := deferredCall{ev: e, static: x.Call.StaticCallee()}
+			if !x.Call.IsInvoke() {
+				dc.callee = ev.val(fr, x.Call.Value)
+			}
+			for _, a := range x.Call.Args {
+				dc.args = append(dc.args, ev.val(fr, a))
+			}
+			if _, isClosure := x.Call.Value.(*ssa.MakeClosure); isClosure {
+				dc.static = nil
+			}
+			fr.defers = append(fr.defers, dc)
 		case *ssa.DebugRef:
 		case *ssa.Call:
 			outs, handled := ev.doCall(fr, st, x)
@@ -563,6 +650,11 @@ func (ev *symEval) doCall(fr *symFrame, st *symState, x *ssa.Call) ([]outcome, b
 			}
 		}
 	}
+	if f := cc.StaticCallee(); f != nil && f.Signature.Recv() != nil && len(args) > 0 && args[0].K == "ref" && args[0].Known && args[0].Nil {
+		if _, isPtr := f.Signature.Recv().Type().(*types.Pointer); isPtr {
+			st.trace = append(st.trace, Event{Kind: "nilderef", What: id, Args: []string{args[0].Desc}, In: fname(fr.fn)})
+		}
+	}
 	if ev.sc.Alts != nil {
 		if alts := ev.sc.Alts(id, args, ev, st); len(alts) > 0 {
 			var outs []outcome
@@ -609,6 +701,32 @@ func (ev *symEval) doCall(fr *symFrame, st *symState, x *ssa.Call) ([]outcome, b
 			outs := ev.call(cv.Fn, args, cv.Bind, st, fr.depth+1)
 			return outs, true
 		}
+	}
+	if id == "builtin append" && len(args) == 2 && args[0].Len != nil && args[0].Len.Known && args[1].Len != nil && args[1].Len.Known {
+		// concrete append: the result is a fresh slice whose elements are tracked in the heap
+		e := ev.callEvent(fr, "call", x)
+		st.trace = append(st.trace, e)
+		n0, n1 := args[0].Len.N, args[1].Len.N
+		name := ev.fresh("append")
+		for i := int64(0); i < n0; i++ {
+			src := fmt.Sprintf("%s[%d]", args[0].Desc, i)
+			if v, ok := st.heap[src]; ok {
+				st.heap[fmt.Sprintf("%s[%d]", name, i)] = v
+			} else {
+				st.heap[fmt.Sprintf("%s[%d]", name, i)] = symOpaque(src)
+			}
+		}
+		for i := int64(0); i < n1; i++ {
+			src := fmt.Sprintf("%s[%d]", args[1].Desc, i)
+			if v, ok := st.heap[src]; ok {
+				st.heap[fmt.Sprintf("%s[%d]", name, i+n0)] = v
+			} else {
+				st.heap[fmt.Sprintf("%s[%d]", name, i+n0)] = symOpaque(src)
+			}
+		}
+		l := symInt(n0 + n1)
+		fr.env[x] = SV{K: "slice", Desc: name, Len: &l, Known: true}
+		return nil, false
 	}
 	e := ev.callEvent(fr, "call", x)
 	st.trace = append(st.trace, e)
@@ -758,6 +876,13 @@ func (ev *symEval) evalValue(fr *symFrame, st *symState, v ssa.Value) SV {
 		if base.K == "str" {
 			r.K = "str"
 		}
+		if pt, ok := x.X.Type().Underlying().(*types.Pointer); ok && x.Low == nil && x.High == nil {
+			if at, ok := pt.Elem().Underlying().(*types.Array); ok {
+				// full slice of an array: same elements, known length
+				l := symInt(at.Len())
+				return SV{K: "slice", Desc: base.Desc, Len: &l, Cap: &l, Known: true}
+			}
+		}
 		// length
 		var lowN int64
 		lowKnown := true
@@ -828,7 +953,7 @@ func (ev *symEval) evalValue(fr *symFrame, st *symState, v ssa.Value) SV {
 		st.heap["map:"+id] = SV{K: "mapval", M: map[int64]SV{}}
 		return SV{K: "ref", Known: true, Desc: id}
 	case *ssa.MakeChan:
-		return SV{K: "ref", Known: true, Desc: ev.fresh("makechan")}
+		return SV{K: "ref", Known: true, Desc: ev.fresh("makechan") + "(cap=" + ev.val(fr, x.Size).Desc + ")"}
 	case *ssa.Range:
 		rv := ev.val(fr, x.X)
 		if cur, ok := st.heap["map:"+rv.Desc]; ok {
@@ -924,6 +1049,9 @@ func evalBin(op token.Token, a, b SV) SV {
 		case token.GEQ:
 			return symBool(a.N >= b.N)
 		}
+	}
+	if op == token.REM && b.K == "int" && b.Known && (b.N == 1 || b.N == -1) {
+		return symInt(0)
 	}
 	if a.K == "bool" && b.K == "bool" && a.Known && b.Known {
 		switch op {
